@@ -94,6 +94,8 @@ type flatIn struct {
 	Operands []Ints   `json:"operands"` // [n, d] each, vector(x)
 	// Lits: operand i is written as a bare number (a scalar literal) instead of vector(x); the value of the chain is the same
 	Lits []bool `json:"lits"`
+	// Dbl: the parenthesised group is written with a redundant second pair: ((a op b))
+	Dbl bool `json:"dbl"`
 	Ops      []string `json:"ops"`
 	Open     int      `json:"open"`  // 0: no parentheses; else parentheses around operands Open..Close
 	Close    int      `json:"close"`
@@ -181,6 +183,9 @@ func (f *flatIn) text() string {
 		}
 		if f.Open == i+1 {
 			sb.WriteString("(")
+			if f.Dbl {
+				sb.WriteString("(")
+			}
 		}
 		if i < len(f.Lits) && f.Lits[i] {
 			sb.WriteString(decOf(o))
@@ -189,6 +194,9 @@ func (f *flatIn) text() string {
 		}
 		if f.Close == i+1 {
 			sb.WriteString(")")
+			if f.Dbl {
+				sb.WriteString(")")
+			}
 		}
 	}
 	return sb.String()
@@ -375,6 +383,7 @@ func genMetric(r *rand.Rand, mode string) metricIn {
 			b := a + 1 + r.Intn(n-a)
 			if !(a == 1 && b == n) {
 				f.Open, f.Close = a, b
+				f.Dbl = r.Intn(4) == 0
 			}
 		}
 		f.Lits = make([]bool, n)
